@@ -335,6 +335,24 @@ def oracle_c02(tables, seed, tier, deep):
                 pass
             viol.append({"site": site, "detail": "outputs differ at byte %d: %r vs %r" % (k, ta[max(0, k - 60):k + 60], tb[max(0, k - 60):k + 60]),
                          "cfg": c.s(), "cli_flags": c.cli(), "input": cs.text, "input2": cs2.text})
+    # the same entry SPELLED differently (characters of keys / literals as \\uXXXX escapes, `\\/`, white space between tokens) decodes to
+    # the same tree, so it must come out as the same bytes: nothing may be decided from the raw text of the line
+    spelled, smeta0 = [], []
+    for i, (cs, c) in enumerate(pairs[:(400 if (tier == "thorough" or deep) else 120)]):
+        for mode, ws in (("at", False), ("some", i % 2 == 0), ("all", False), ("slash", True))[: (4 if i % 3 == 0 else 2)]:
+            cs3 = Case(cs.tree, cs.roles)
+            cs3.text = to_json_spelled(cs.tree, rng, mode, ws)
+            if cs3.text != cs.text and parse_json(cs3.text) == parse_json(cs.text):
+                spelled.append((cs3, c))
+                smeta0.append((i, mode))
+    r3 = run_lines(spelled)
+    for (cs3, c), (i, mode), b in zip(spelled, smeta0, r3):
+        a = r1[i]
+        if a != b:
+            ta, tb = out_text(a) or a, out_text(b) or b
+            k = next((j for j in range(min(len(ta), len(tb))) if ta[j] != tb[j]), min(len(ta), len(tb)))
+            viol.append({"site": "interference:spelling", "detail": "the same entry with characters written as escapes (%s) comes out differently at byte %d: %r vs %r" % (mode, k, ta[max(0, k - 60):k + 60], tb[max(0, k - 60):k + 60]),
+                         "cfg": c.s(), "cli_flags": c.cli(), "input": pairs[i][0].text, "input2": cs3.text})
     # whole streams: the outputs for [L, L] and [L, L'] (and [L, X, L] / [L, X, L']) must be the same bytes - the output may not
     # even reveal WHETHER two entries carry the same secrets
     sops, smeta = [], []
@@ -353,7 +371,7 @@ def oracle_c02(tables, seed, tier, deep):
         if a != b:
             viol.append({"site": "interference:stream", "detail": "a stream holding an entry twice and the same stream with the secrets of the second copy re-assigned give different output (%d vs %d bytes)" % (len(a), len(b)),
                          "cfg": c.s(), "cli_flags": c.cli(), "input_hex": hx(da), "input2_hex": hx(db)})
-    return result(viol, 2 * len(pairs) + len(sops), differing, "pairs (L, L') of grammar lines, L' = class-preserving re-assignment of every sensitive literal (length x1000, JSON metacharacters, equal/unequal); distinct_nontrivial = pairs whose inputs really differ",
+    return result(viol, 2 * len(pairs) + len(sops) + len(spelled), differing, "pairs (L, L') of grammar lines, L' = class-preserving re-assignment of every sensitive literal (length x1000, JSON metacharacters, equal/unequal); distinct_nontrivial = pairs whose inputs really differ",
                   {}, [{"L": pairs[0][0].text[:300], "L2": twins[0][0].text[:300]}] if pairs else [])
 
 
@@ -1410,6 +1428,9 @@ def oracle_c08(tables, seed, tier, deep):
         for k in range(nwrites + 1):
             ops.append(("w%d" % k, ["stream", cfg.s(), "w%d" % k, hx(data)], ("w", k)))
             ops.append(("s%d" % k, ["stream", cfg.s(), "s%d" % k, hx(data)], ("s", k)))
+            # the same input WITHOUT the final newline: the last entry is written by the code behind the scan loop
+            ops.append(("W%d" % k, ["stream", cfg.s(), "w%d" % k, hx(data[:-1])], ("w", k)))
+            ops.append(("S%d" % k, ["stream", cfg.s(), "s%d" % k, hx(data[:-1])], ("s", k)))
         res = go_exec([(o[0], o[1]) for o in ops])
         n += len(ops)
         for oid, f, (kind, k) in ops:
@@ -1418,9 +1439,9 @@ def oracle_c08(tables, seed, tier, deep):
             reached = ("r=true" in res[oid]) or ("w=true" in res[oid])
             dist[kind + ":" + st] += 1
             if reached and st == "ok":
-                viol.append({"site": "fault:%s:reported-ok" % kind, "detail": "fault %s%d was reached but the stream processor returned success" % (kind, k), "cfg": cfg.s(), "input_hex": hx(data), "faults": f[2]})
+                viol.append({"site": "fault:%s:reported-ok" % kind, "detail": "fault %s%d was reached but the stream processor returned success" % (kind, k), "cfg": cfg.s(), "input_hex": f[3], "faults": f[2]})
             if not reached and st != "ok":
-                viol.append({"site": "fault:%s:spurious" % kind, "detail": "no fault reached but status %s" % st, "cfg": cfg.s(), "input_hex": hx(data), "faults": f[2]})
+                viol.append({"site": "fault:%s:spurious" % kind, "detail": "no fault reached but status %s" % st, "cfg": cfg.s(), "input_hex": f[3], "faults": f[2]})
             body = out
             if kind == "s" and reached:
                 # a short write leaves part of one line: only what precedes the failing write is judged
@@ -1430,7 +1451,7 @@ def oracle_c08(tables, seed, tier, deep):
                 # the partial last token may be a complete line of the input cut exactly at its end
                 pass
             if not whole_line_prefix(body, [e for e in exp if e]):
-                viol.append({"site": "fault:%s:not-a-prefix" % kind, "detail": "bytes written before the fault are not a whole-line prefix of the fault-free output", "cfg": cfg.s(), "input_hex": hx(data), "faults": f[2]})
+                viol.append({"site": "fault:%s:not-a-prefix" % kind, "detail": "bytes written before the fault are not a whole-line prefix of the fault-free output", "cfg": cfg.s(), "input_hex": f[3], "faults": f[2]})
     # every write fails, inputs of 1..N copies of one line: whatever the total size, the failure must be reported
     for L, maxn in ((60, 1200 if big else 1200), (400, 400), (3000, 60)):
         line = to_json(Obj([("c", "COMMAND"), ("attr", Obj([("ns", "d.c"), ("command", Obj([("find", "c"), ("filter", Obj([("a", "x" * L)]))]))]))]))
@@ -1577,7 +1598,9 @@ HARNESS_KEY = bytes([(i * 7 + 3) % 256 for i in range(64)])
 def nasty_strings(rng, n):
     base = ["", " ", "a", "REDACTED", "QUJD", "AAAA", "{\"a\":1}", "null", "x" * 8191, "é" * 700, "\U0001F600\U0001F4A9", "中文字符", "\x00\x01\x1f\x7f", "line1\nline2\r\n\ttab", "\"quoted\" \\back\\", "<script>&amp;</script>",
             "\u2028\u2029", "a@b.co", "$notfirst"[1:] + "$x", "A" * 64, "=" * 5, "-----BEGIN", "\ufffd", "\ud7ff\ue000", "0", "-1e5",
-            "discount 100% today", "%s %d %v %!d(MISSING)", "%", "%%", "100%25", "a%20b", "Alice@Example.COM", "alice@example.com"]
+            "discount 100% today", "%s %d %v %!d(MISSING)", "%", "%%", "100%25", "a%20b", "Alice@Example.COM", "alice@example.com",
+            # values that a padding / trimming scheme would mangle: NUL, white space and 0x80 at either end, block-size lengths
+            "pin\x00", "\x00", "a\x00\x00", "\x00a", " both ends ", "trailing\n", "\ttab\t", "hi\u0080", "\u0080", "16bytes_exactly!!"[:16], "x" * 15, "x" * 17, "x" * 32, "\x01", "\x10" * 16, "\x00" * 16]
     out = list(base)
     alph = "abcXYZ019 _-+/=\"\\{}[]:,é中\U0001F600\x07%"
     while len(out) < n:
@@ -1589,7 +1612,7 @@ def oracle_c09(tables, seed, tier, deep):
     import tempfile, shutil
     big = tier == "thorough" or deep
     rng = SplitMix(seed ^ 0x9)
-    strs = [s for s in nasty_strings(rng, 160 if big else 40) if not s.startswith("$")]
+    strs = [s for s in nasty_strings(rng, 160 if big else 56) if not s.startswith("$")]
     viol = []
     dist = collections.Counter()
     n = 0
@@ -2225,7 +2248,10 @@ def oracle_c12(tables, seed, tier, deep):
     cases += extra
     pairs = []
     for i, cs in enumerate(cases):
-        base = [Cfg(), Cfg(n=True, b=True, i=True), Cfg(repl="X"), Cfg(re="^zq_nomatch$"), Cfg(repl="p.q_r"), Cfg(enc=3)][i % 6]
+        # (selective expressions that NAME the namespace-bearing arguments, and one that matches every name: another mode's rule may
+        #  not take precedence over the pseudonym)
+        base = [Cfg(), Cfg(n=True, b=True, i=True), Cfg(repl="X"), Cfg(re="^zq_nomatch$"), Cfg(repl="p.q_r"), Cfg(enc=3),
+                Cfg(re="^(from|coll|into|db|to|ns|collection|find|aggregate|count|distinct|\\$db|\\$out|\\$merge|\\$unionWith|\\$lookup)$"), Cfg(re="."), Cfg(re="^(from|into)$", n=True)][i % 9]
         if i % 7 == 3 and cs.ns:
             # with --redactFieldNames: whole database, database with its dot, the exact namespace, a prefix cut inside a component
             db = cs.ns.split(".")[0]
@@ -2267,6 +2293,19 @@ def oracle_c12(tables, seed, tier, deep):
                 continue
             viol.append({"site": "ns-diff:" + site_of(pth), "detail": "flag-on output differs from flag-off output other than by name -> pseudonym(name): %s %r -> %r" % (why, x, y),
                          "cfg": c1.s(), "cli_flags": c1.cli(), "input": cs.text, "output_off": ta, "output": tb})
+        # (2b) consistency: a leaf that IS a planted name (or names joined by dots) and comes out changed must come out as THE pseudonym -
+        # also where the flag-off run already replaced it by something else (another mode's rule may not take precedence)
+        nstoks = {tok for tok, role in cs.roles.items() if role == "NS"}
+        if nstoks and not has_dups(cs.tree):
+            for pth, leaf in leaves(dedupe(cs.tree)):
+                if isinstance(leaf, str) and not isinstance(leaf, Num) and leaf and all(part in nstoks for part in leaf.split(".")):
+                    try:
+                        got = get_path(ob, pth)
+                    except Exception:
+                        continue
+                    if isinstance(got, str) and got != leaf and got != py_hash_name(c1.repl, leaf):
+                        viol.append({"site": "ns-inconsistent:" + site_of(pth), "detail": "the name %r comes out as %r, not as its pseudonym %r: references to it from other fields and lines are lost" % (leaf, got, py_hash_name(c1.repl, leaf)),
+                                     "cfg": c1.s(), "cli_flags": c1.cli(), "input": cs.text, "output": tb})
         # (3) attr.ns on every line that has one
         nsv = get_path(cs.tree, ("attr", "ns"))
         if isinstance(nsv, str):
@@ -2590,6 +2629,9 @@ def oracle_c11(tables, seed, tier, deep):
         "not-base64": (b"!!!! not base64 !!!!", False), "valid-then-junk": (good + b"#junk-after-the-key", False), "two-keys": (good + other, False),
         "valid-then-space": (good + b" ", False), "binary-64": (bytes(rng.below(256) for _ in range(64)), False),
         "dir": ("DIR", False), "parent-missing": ("NOPARENT", False), "under-a-file": ("UNDERFILE", False), "dangling-symlink": ("DANGLING", True), "symlink-valid": ("SYMLINK", True),
+        # the path as SPELLED decides: `gone/..` does not resolve when `gone` is missing (the kernel walks the path), whatever a lexical
+        # clean-up of the text would make of it; an existing key behind such a spelling must stay as it is
+        "valid-behind-missing-dotdot": ("DOTDOT_MISSING", False), "valid-behind-dotdot": ("DOTDOT_OK", True), "valid-double-slash": ("DSLASH", True),
     }
     seqs = [["ok"], ["ok", "ok"], ["ok", "ok", "ok"], ["abort", "ok"], ["ok", "abort"]] if big else [["ok", "ok"], ["abort", "ok"]]
     work = tempfile.mkdtemp(prefix="verif_c11_")
@@ -2614,6 +2656,14 @@ def oracle_c11(tables, seed, tier, deep):
                     open(target, "wb").write(good)
                     os.chmod(target, 0o640)
                     os.symlink(target, key)
+                elif init in ("DOTDOT_MISSING", "DOTDOT_OK", "DSLASH"):
+                    os.mkdir(os.path.join(d, "keys"))
+                    target = os.path.join(d, "keys", "k.key")
+                    open(target, "wb").write(good)
+                    os.chmod(target, 0o644)
+                    if init == "DOTDOT_OK":
+                        os.mkdir(os.path.join(d, "stage"))
+                    key = {"DOTDOT_MISSING": d + "/gone/../keys/k.key", "DOTDOT_OK": d + "/stage/../keys/k.key", "DSLASH": d + "//keys///k.key"}[init]
                 elif init is not None:
                     open(key, "wb").write(init)
                     os.chmod(key, 0o644)
@@ -2805,6 +2855,7 @@ def atlas_scenarios(rng, big):
 
 
 def oracle_c16(tables, seed, tier, deep):
+    import gzip
     import fakeatlas, tempfile, shutil, urllib.parse
     big = tier == "thorough" or deep
     rng = SplitMix(seed ^ 0xC16)
@@ -2908,19 +2959,31 @@ def oracle_c16(tables, seed, tier, deep):
                 viol.append(dict(rep, site="atlas:output-differs:existing-output-file", detail="exit %d; %s.%d is %s bytes, the redaction of host %d's log is %d bytes%s" % (
                     r["rc"], base, i, "no" if got is None else len(got), i, len(exp), "; it ends with the earlier run's content" if got and got.endswith(stale[-40:]) else "")))
         # a failing host: the run must fail, and whatever <out>.<i> exists must still be host i's redaction (no shifting)
-        hostfaults = [(k, ("http", 500)) for k in ([0, 1, 2] if big else [1])] + [(1, ("cut", -2)), (0, ("cut", -1)), (2, ("cut", 0)), (1, ("cut", -9))]
+        hostfaults = [(k, ("http", 500)) for k in ([0, 1, 2] if big else [1])] + [(1, ("cut", -2)), (0, ("cut", -1)), (2, ("cut", 0)), (1, ("cut", -9)),
+                      (1, ("once", "member")), (2, ("once", "half")), (0, ("once", "member"))]
         for k, flt in hostfaults:
             hs = ["h0.example.net:27017", "h1.example.net:27017", "h2.example.net:27017"]
             plains = [atlas_payload(rng, i, 3 + i) for i in range(3)]
             gzs = [fakeatlas.gz(p) for p in plains]
             if flt[0] == "cut":
                 flt = ("cut", {-2: len(gzs[k]) // 2, -1: len(gzs[k]) - 1, 0: 0, -9: len(gzs[k]) - 9}[flt[1]])
+            if flt[0] == "once":
+                # the transfer of this host's log breaks off ONCE (exactly behind a gzip member / in the middle); every later request
+                # is served in full, whatever it asks for.  One download per host: the job may fail, it may not fetch the log again,
+                # and no <out>.<i> may hold anything but the redaction of what the server holds for host i.
+                half = plains[k][: plains[k].index(b"\n", len(plains[k]) // 2) + 1]
+                m1 = gzip.compress(half)
+                gzs[k] = m1 + gzip.compress(plains[k][len(half):])
+                flt = ("seq", [("cut", len(m1) if flt[1] == "member" else len(gzs[k]) // 2)])
             sc = fakeatlas.Scenario(hs, gzs, faults={k: flt})
             r = run_atlas(sc, work)
             n += 1
             rep = {"cfg": "-", "cli_flags": r["args"][1:], "input": "3 hosts, host %d: %r" % (k, flt)}
             if r["rc"] == 0:
                 viol.append(dict(rep, site="atlas:failed-host-exit0", detail="the download of host %d failed (%r) but the run exits 0" % (k, flt)))
+            per_host = collections.Counter(e.get("host_index") for e in r["log"] if e["authed"] and e["path"].endswith("/logs/mongodb.gz"))
+            if any(v > 1 for v in per_host.values()):
+                viol.append(dict(rep, site="atlas:download-repeated", detail="authenticated log downloads per host: %r (exactly one per host is allowed)" % dict(per_host)))
             base = os.path.basename(r["out"])
             for i, plain in enumerate(plains):
                 got = r["outputs"].get("%s.%d" % (base, i))
